@@ -2229,6 +2229,11 @@ class Interp:
                 if last in WIDE_UNSUFFIXED and len(args) == 1:
                     return unsuffixed(args[0], last)
                 return ('call', 'Literal::' + last, args)
+            if len(segs) >= 2 and segs[-2] == 'LitInt' and last == 'new' and args and args[0][0] == 'mcall' and args[0][2] == 'to_string' and not args[0][3]:
+                # syn::LitInt::new(&n.to_string(), span): the unsuffixed decimal literal n
+                return unsuffixed(args[0][1], 'u32_unsuffixed')
+            if len(segs) >= 2 and segs[-2] == 'LitStr' and last == 'new' and args:
+                return ('call', 'Literal::string', args[:1])      # syn::LitStr::new(s, span) prints the string literal of s
             if len(segs) >= 2 and segs[-2] == 'Index' and last == 'from' and len(args) == 1 and p.startswith(('syn::', 'Index::')):
                 # syn::Index::from(n) prints the unsuffixed decimal literal n (it asserts n < u32::MAX)
                 return unsuffixed(args[0])
